@@ -814,3 +814,11 @@ class __Integer""", """        pre = pre.at_least_at_most(n=n_min, m=n_max)
 
 
 class __Integer""")], rule="R-HISTORY")
+M("benign-lazy-class-constant", ["C20", "C19"], [
+    (ESS, "    def __init__(self, formats: _Optional[_Union[str, list[str]]] = None, is_extensible: bool = False) -> _pre.Pregex:",
+     "    __all_formats = None\n\n    def __init__(self, formats: _Optional[_Union[str, list[str]]] = None, is_extensible: bool = False) -> _pre.Pregex:"),
+    (ESS, "        date_formats = __class__.__date_formats()\n", "        if __class__.__all_formats is None:\n            __class__.__all_formats = tuple(__class__.__date_formats())\n        date_formats = __class__.__all_formats\n")], expect="silent")
+M("c20-lazy-class-attribute-from-argument", "C20", [
+    (ESS, "    def __init__(self, formats: _Optional[_Union[str, list[str]]] = None, is_extensible: bool = False) -> _pre.Pregex:",
+     "    __first_formats = None\n\n    def __init__(self, formats: _Optional[_Union[str, list[str]]] = None, is_extensible: bool = False) -> _pre.Pregex:"),
+    (ESS, "        date_formats = __class__.__date_formats()\n", "        date_formats = __class__.__date_formats()\n        if __class__.__first_formats is None:\n            __class__.__first_formats = formats\n        formats = formats if formats is not None else __class__.__first_formats\n")], rule="R-WRITEONCE")
